@@ -27,6 +27,8 @@ func (e *Engine) VerifyFunc(full string) *FuncResult {
 		ct.Used = true
 	}
 	e.cur = fr
+	// "tokenmodel" in the contract: this function is verified with the value-token model of the primitive codec
+	e.Opts.TokenModel = ct != nil && ct.TokenModel
 	e.pathCount = 0
 	e.stepCount = 0
 	e.copies = nil
